@@ -92,6 +92,7 @@ class Harness:
         budget: Optional[int] = 4000,
         threads: bool = False,
         yielding: bool = False,
+        tick: float = 0.0,
     ) -> None:
         self.cfg = cfg
         self.rec = Recorder()
@@ -109,6 +110,9 @@ class Harness:
         self.with_subscriber = with_subscriber
         self.fresh_machine = fresh_machine
         self.threads = threads
+        # with threads=True: virtual seconds that pass after every operation of the caller (start / send / batch), so that
+        # polling helper threads (actor runners, 10 ms polls) get past their next poll before the caller's next operation
+        self.tick = tick
         self._machine = None
 
     def machine(self):
@@ -225,7 +229,7 @@ class SyncDriver:
         if self.sched is not None:
             self.sched.touch()
             if self.sched.current is self.sched.main:
-                self.sched.run_all(until=self.sched.now)
+                self.sched.run_all(until=self.sched.now + self.h.tick)
 
     def start(self) -> Optional[BaseException]:
         try:
